@@ -133,3 +133,118 @@ func (p *pipeRun) backendContentType() string {
 	}
 	return "application/json"
 }
+
+// nestDispatch routes the outermost invocation to backend a and any invocation made while a is running to b.
+type nestDispatch struct {
+	a, b  *pipeBackend
+	depth int
+}
+
+func (d *nestDispatch) ServeHTTP(w http.ResponseWriter, r *http.Request) {
+	d.depth++
+	if d.depth == 1 {
+		d.a.ServeHTTP(w, r)
+	} else {
+		d.b.ServeHTTP(w, r)
+	}
+	d.depth--
+}
+
+// hC14Nested: two RPCs in flight on one Transcoder. RPC B runs in its entirety at a chosen point of RPC A's
+// handler (on entry, after A's handler has read only the start of its request, after its first response
+// message, after its response but before the rest of the request is read): the interleavings of two RPCs in
+// which B is atomic, at every handler-visible point of A. Each RPC's result equals its result alone on a
+// fresh transcoder, also when B fails (corrupt payload) while A is active, and no pooled object ends up with
+// two owners.
+func hC14Nested() {
+	cfg, ok := pickAdapterCfg()
+	if !ok {
+		return
+	}
+	if pipeIsPassThrough(cfg) {
+		return
+	}
+	cfg.maxMsg = 64
+	msgsA := []wireMsg{{abstract: nondetBytes("a", 1), compressed: cfg.clientComp}}
+	readFirst := 0
+	if cfg.kind == fkBidi {
+		msgsA = append(msgsA, wireMsg{abstract: []byte{'A'}, compressed: cfg.clientComp})
+		readFirst = 6
+	}
+	respA := []wireMsg{{abstract: nondetBytes("ra", 1)}}
+	msgsB := []wireMsg{{abstract: nondetBytes("b", 1), compressed: cfg.clientComp}}
+	respB := []wireMsg{{abstract: nondetBytes("rb", 1)}}
+	closeBody := verifChoose("handlerClosesBody", 2) == 1
+	bFails := verifChoose("bFails", 2) == 1
+	at := verifChoose("interleaveAt", 4)
+
+	buildB := func(body *fakeBody) *http.Request {
+		req := buildClientRequest(cfg, msgsB, body)
+		if bFails {
+			if clientEnveloped(cfg.client) {
+				body.data = appendFrame(nil, 1, []byte{9, 9})
+			} else {
+				body.data = []byte{9, 9}
+			}
+		}
+		return req
+	}
+	setup := func(b *pipeBackend) {
+		b.closeBody = closeBody
+		b.readFirst = readFirst
+	}
+
+	soloA := newPipe(cfg)
+	if !soloA.buildOK {
+		return
+	}
+	setup(soloA.backend)
+	wantA := runProbe(soloA, cfg, msgsA, respA, false)
+
+	soloB := newPipe(cfg)
+	setup(soloB.backend)
+	soloB.backend.script = &respScript{msgs: respB}
+	soloB.req = buildB(soloB.body)
+	soloB.tr.ServeHTTP(soloB.sink, soloB.req)
+	wantB := probeResult{calls: soloB.backend.rec.calls, body: soloB.backend.rec.body, readErr: soloB.backend.rec.readErr != nil,
+		status: soloB.sink.status, out: soloB.sink.body, hdr: soloB.sink.hdr}
+
+	p := newPipe(cfg)
+	setup(p.backend)
+	backendB := &pipeBackend{target: p.backend.target, unary: p.backend.unary, codec: p.backend.codec, bufSize: p.backend.bufSize}
+	setup(backendB)
+	backendB.script = &respScript{msgs: respB}
+	var gotB probeResult
+	ranB := false
+	p.backend.hook = func(point int) {
+		if point != at || ranB {
+			return
+		}
+		ranB = true
+		sinkB, bodyB := newFakeSink(), &fakeBody{}
+		p.tr.ServeHTTP(sinkB, buildB(bodyB))
+		gotB = probeResult{calls: backendB.rec.calls, body: backendB.rec.body, readErr: backendB.rec.readErr != nil,
+			status: sinkB.status, out: sinkB.body, hdr: sinkB.hdr}
+	}
+	p.tr.methods[pipePath].handler = &nestDispatch{a: p.backend, b: backendB}
+	gotA := runProbe(p, cfg, msgsA, respA, false)
+
+	verifObsBytes("A-backend-body", gotA.body)
+	verifObsBytes("A-client-body", gotA.out)
+	verifObsBytes("B-backend-body", gotB.body)
+	verifObsBytes("B-client-body", gotB.out)
+	if !ranB {
+		verifReach("interleave-point-not-on-this-path")
+		return
+	}
+	verifReach("two-rpcs-in-flight")
+	verifAssert(wantA.calls == gotA.calls && bytesEq(wantA.body, gotA.body) && wantA.readErr == gotA.readErr,
+		"C14: the request an RPC delivers is the same as if it ran alone")
+	verifAssert(wantA.status == gotA.status && bytesEq(wantA.out, gotA.out) && headersEqual(wantA.hdr, gotA.hdr),
+		"C14: the response of an RPC is the same as if it ran alone")
+	verifAssert(wantB.calls == gotB.calls && bytesEq(wantB.body, gotB.body) && wantB.readErr == gotB.readErr,
+		"C14: the request of the RPC running in between is the same as if it ran alone")
+	verifAssert(wantB.status == gotB.status && bytesEq(wantB.out, gotB.out) && headersEqual(wantB.hdr, gotB.hdr),
+		"C14: the response of the RPC running in between is the same as if it ran alone")
+	verifAssert(poolsSound(p.tr), "C14: no pooled object is owned twice after two overlapping RPCs")
+}
